@@ -19,6 +19,13 @@ ASSUMPTIONS = ["PrekillHookInvocation's destructor ends the invocation"]
 
 
 def run(ctx):
+    # locals / parameters the rules below refer to by name (a rename makes the analysis 'broken', never a violation)
+    ctx.anchor(ctx.fn1('Oomd::BaseKillPlugin::resumeTryingToKillSomething'), 'candidate', 'nextBestOptionStack')
+    ctx.anchor(ctx.fn1('Oomd::BaseKillPlugin::resumeFromPrekillHook'), 'intendedCandidate', 'intendedVictim', 'sc', 'id')
+    ctx.anchor(ctx.fn1('Oomd::Engine::Engine::firePrekillHook'), 'it', 'cgroup_ctx')
+    ctx.anchor(ctx.fn1('Oomd::Engine::Engine::addDropInConfig'), 'tag')
+    ctx.anchor(ctx.fn1('Oomd::Engine::PrekillHook::canRunOnCgroup'), 'pattern')
+    ctx.anchor(ctx.fn1('Oomd::BaseKillPlugin::pastPrekillHookTimeout'), 'ctx')
     P = ctx.prog
     rts = ctx.fn1("Oomd::BaseKillPlugin::resumeTryingToKillSomething")
     rfp = ctx.fn1("Oomd::BaseKillPlugin::resumeFromPrekillHook")
